@@ -63,7 +63,7 @@ sc == ScenarioSeq[sid]      \* the scenario
 
 ----------------------------------------------------------------------------
 \* generic helpers
-Range(s) == {s[i] : i \in 1..Len(s)}
+RangeOf(s) == {s[i] : i \in 1..Len(s)}
 Ids(n) == [i \in 1..n |-> i]
 RECURSIVE Cat(_)
 Cat(ss) == IF ss = <<>> THEN <<>> ELSE Head(ss) \o Cat(Tail(ss))
@@ -101,8 +101,8 @@ SpanContains(a, b) == a # b /\ a[1] <= b[1] /\ b[2] <= a[2]
 
 ----------------------------------------------------------------------------
 \* C13: which processors are called for an object, and with what effect
-HasProc(s, r) == r \in Range(s.procs)
-Replaces(s, r) == r \in Range(s.repl)
+HasProc(s, r) == r \in RangeOf(s.procs)
+Replaces(s, r) == r \in RangeOf(s.repl)
 \* own-rule processor (only when the declared rule differs), then the declared rule's
 CallsOf(s, o) ==
   (IF Kind(s, o) # Decl(s, o) /\ HasProc(s, Kind(s, o)) THEN <<Kind(s, o)>> ELSE <<>>)
@@ -305,7 +305,7 @@ C13_OwnFirst ==
        /\ calls[j].rule # calls[i].rule) => i < j
 
 CallCount(o, r) == Count(calls, LAMBDA c : c.obj = o /\ c.rule = r)
-Rules == UNION {{Kind(sc, o), Decl(sc, o)} : o \in Objs(sc)} \cup Range(sc.procs)
+Rules == UNION {{Kind(sc, o), Decl(sc, o)} : o \in Objs(sc)} \cup RangeOf(sc.procs)
 \* 1 for the own rule when registered; 1 for a different, registered declared rule; else 0
 DocCount(o, r) ==
   IF ~HasProc(sc, r) THEN 0
@@ -372,11 +372,11 @@ C34_XrefSorted ==
 C34_XrefOnce ==
   Done => \A f \in 1..NF(sc) :
             /\ Len(xrefs[f]) = Len(RefsOfFile(sc, f))
-            /\ \A r \in Range(RefsOfFile(sc, f)) :
+            /\ \A r \in RangeOf(RefsOfFile(sc, f)) :
                  Cardinality({i \in 1..Len(xrefs[f]) : xrefs[f][i].start = sc.refs[r].start}) = 1
 C34_XrefExact ==
   Done => \A f \in 1..NF(sc) : \A i \in 1..Len(xrefs[f]) :
-            \E r \in Range(RefsOfFile(sc, f)) :
+            \E r \in RangeOf(RefsOfFile(sc, f)) :
               LET x == sc.refs[r] t == sc.objs[x.target] e == xrefs[f][i] IN
               /\ e.start = x.start /\ e.end = x.start + x.len
               /\ e.dfile = sc.files[t.file] /\ e.dstart = t.start /\ e.dend = t.end
